@@ -21,7 +21,7 @@ RULE = (
     "equals what raw NumPy returns for the same plain call - same Python structure, shape, dtype, bitwise-equal data; a "
     "recursive scanner finds any Box in any returned object; inputs are hashed before and after. Non-trivial = the call went "
     "through at least one primitive under an active trace (autograd did not raise); distinct by (template/form, features, stack, api)."
-    ' Forms added later: equality of traced containers, lists mixing low-precision typed elements with Python literals.'
+    ' Forms added later: equality of traced containers, lists mixing low-precision typed elements with Python literals; iteration order of traced dicts; replays of an autograd.misc.const_graph wrapper.'
 )
 
 
